@@ -20,7 +20,20 @@ def run(prog):
     fns = [f for f in prog.lib_fns if f.name == "compress" and "CompressionSddBuilder" in f.npath]
     if len(fns) != 1:
         raise CheckerError("CM: CompressionSddBuilder::compress not found")
-    fn = fns[0]
+    out = compress_rule(prog, fns[0])
+    out += trimming(prog)
+    # every other builder's `compress` that actually does something is held to the same scheme
+    for f in prog.lib_fns:
+        if f.name == "compress" and f is not fns[0] and "{closure" not in f.npath and f.cfg.loop_headers and \
+                "SddBuilder" in (f.impl_trait or ""):
+            try:
+                out += compress_rule(prog, f)
+            except CheckerError as e:
+                out.append(inst("CM", "%s:CM1:test" % f.npath, UNDECIDED, f, None, "? " + str(e)))
+    return out
+
+
+def compress_rule(prog, fn):
     te, cfg = fn.terms, fn.cfg
     out = []
     jl = None
@@ -36,8 +49,13 @@ def run(prog):
     jmu = min(jm, key=lambda m: len(cfg.loop_headers[m[1]]))   # innermost loop carrying j
     hj = jmu[1]
 
+    outer_mus = {("mu", h, l) for (h, l) in te.mu_init if h != hj and cfg.loop_headers[hj] < cfg.loop_headers.get(h, set()) and l != jl}
+
     def is_i(t):
+        """the position of the outer loop: the item of `for i in 0..len`, or the cursor of an outer `while i < len`"""
         t = strip(t)
+        if t in outer_mus:
+            return True
         return t[0] == "field" and t[2] == "0" and "next(" in show(t) and not any(x == jmu for x in mir.subterms(t))
 
     def elem(t):
@@ -64,7 +82,11 @@ def run(prog):
                         % (show(eqs[0].args[-2])[:50], show(eqs[0].args[-1])[:50]))
     init = strip(te.mu_init[(hj, jl)])
     si = show(init)
-    if not ("AddWithOverflow 1" in si and "next(" in si):
+    i0 = init
+    if i0[0] == "field" and i0[2] == "0" and isinstance(i0[1], tuple):
+        i0 = strip(i0[1])
+    plus1 = i0[0] == "bin" and i0[1] in ("Add", "AddWithOverflow") and strip(i0[3]) == ("const", "usize", "1") and is_i(i0[2])
+    if not plus1 and not ("AddWithOverflow 1" in si and "next(" in si):
         errs.append("the inner cursor starts at %s, not at i + 1" % si[:50])
     bound = [c for b, (c, _) in te.switch_term.items() if b in cfg.loop_headers[hj] and strip(c)[0] == "bin"
              and strip(c)[1] in ("Lt", "Ge", "Le", "Gt") and any(x == jmu for x in mir.subterms(strip(c)))]
@@ -84,6 +106,15 @@ def run(prog):
             errs.append("merged prime is %s, expected prime(node[i]) ∨ prime(node[j])" % show(p)[:80])
         if acc(s_, "sub") not in ("i", "j"):
             errs.append("merged sub is %s, expected the common sub" % show(s_)[:60])
+        # node[i] is overwritten by every merge, so the prime of node[i] that enters a merge has to be read in that very
+        # iteration: a value read before the inner loop is the prime node[i] had *before* earlier merges of this i
+        body_j = cfg.loop_headers[hj]
+        for cs in te.calls:
+            if cs.callee.name == "prime" and cs.args and elem(cs.args[0]) == "i" and cs.bb not in body_j and \
+                    any(strip(cs.term) == strip(x) for x in [strip(p)] + list(mir.subterms(p))):
+                errs.append("the prime of node[i] that is merged is read before the inner loop (line %s) although every merge "
+                            "overwrites node[i]: from the second merge of one i on, the primes merged earlier are lost and the "
+                            "primes no longer cover everything" % cs.line)
         stores = [st for st in te.stores if st[0] in cfg.loop_headers[hj]]
         tgt = [elem(st[1]) for st in stores]
         if "i" not in tgt:
@@ -96,7 +127,7 @@ def run(prog):
         # ... and on nothing else: every pair with equal subs must be merged
         for c, val, _, _ in te.facts_at(rms[0].bb):
             sc = show(strip(c))
-            if sc == eq_txt or sc.startswith("discr(next(") or (any(x == jmu for x in mir.subterms(strip(c))) and "len(" in sc):
+            if sc == eq_txt or sc.startswith("discr(next(") or (any(x == jmu or x in outer_mus for x in mir.subterms(strip(c))) and "len(" in sc):
                 continue
             errs.append("elements with equal subs are merged only if additionally `%s` is %s: the remaining equal subs stay "
                         "in the node, which is then not compressed" % (sc[:70], "false" if val == "0" else "true"))
@@ -133,7 +164,6 @@ def run(prog):
             errs.append("an iteration keeps node[j] but advances j by %d" % inc)
     if not results:
         errs.append("?no path through the inner loop found")
-    out += trimming(prog)
     out.append(inst("CM", "%s:CM3:cursor" % fn.npath, verdict_of(errs), fn, None,
                     errtext(errs) if errs else "per iteration: remove-and-stay or keep-and-advance %s" % sorted(results)))
     return out
